@@ -69,7 +69,7 @@ def _copy_sources(repo, dest, want_ext_sources):
         shutil.copy2(os.path.join(repo, rel), d)
 
 
-SAN_FLAGS = "-fsanitize=address,undefined -fno-omit-frame-pointer -g -O1"
+SAN_FLAGS = "-fsanitize=address -fno-omit-frame-pointer -g -O1"
 
 
 def _build_ext(repo, extdir, sanitize):
@@ -82,7 +82,7 @@ def _build_ext(repo, extdir, sanitize):
     if sanitize:
         env["CFLAGS"] = SAN_FLAGS
         env["CXXFLAGS"] = SAN_FLAGS
-        env["LDFLAGS"] = "-fsanitize=address,undefined"
+        env["LDFLAGS"] = "-fsanitize=address"
     cmd = [sys.executable, "setup.py", "-q", "build_ext", "--inplace", "-j16"]
     p = subprocess.run(cmd, cwd=tmp, env=env, stdout=subprocess.PIPE,
                        stderr=subprocess.STDOUT, text=True, errors="replace")
